@@ -14,7 +14,8 @@ On the proposals of the rule set at an instant (`none` = not applicable):
   stored and recorded);
 * `compute_applies_control`: the duty cycle recorded at an instant is the controller's output on that
   instant's own state, held or not;
-* `arbitrate_range` and `recorded_in_range`: every duty cycle recorded along any history lies in
+* `arbitrate_range`, `recorded_in_range` and `recorded_in_range_segments` (the controller being a parameter of
+  each run): every duty cycle recorded along any history lies in
   [-1, 1] (the attribute starts in range: constructor default 1 or the validating setter).
 -/
 
@@ -148,6 +149,30 @@ theorem recorded_in_range (c : Cfg) (hc : CtlRanged c) (ops : List Op) (p v : Q)
     · simp at he
     · rename_i s1 h1
       exact ih s1 he (applyOp_pwm c hc s s1 o h0 h1)
+
+theorem exec_pwm (c : Cfg) (hc : CtlRanged c) (ops : List Op) (s s' : St) (h : PwmInv s)
+    (he : exec c ops s = .ok s') : PwmInv s' := by
+  induction ops generalizing s with
+  | nil => simp [exec] at he; subst he; exact h
+  | cons o os ih =>
+    simp only [exec] at he
+    split at he
+    · simp at he
+    · rename_i s1 h1
+      exact ih s1 (applyOp_pwm c hc s s1 o h h1) he
+
+/-- C14 when the controller is a parameter of each run (`execSeg`: every segment has its own configuration,
+    in particular its own controller or none): every recorded duty cycle still lies in [-1, 1] -/
+theorem recorded_in_range_segments : ∀ (segs : List (Cfg × List Op)) (s s' : St),
+    (∀ seg ∈ segs, CtlRanged seg.1) → PwmInv s → execSeg segs s = .ok s' → PwmInv s'
+  | [], s, s', _, h, he => by simp [execSeg] at he; subst he; exact h
+  | (c, ops) :: rest, s, s', hall, h, he => by
+    simp only [execSeg] at he
+    split at he
+    · simp at he
+    · rename_i s1 h1
+      exact recorded_in_range_segments rest s1 s' (fun seg hs => hall seg (by simp [hs]))
+        (exec_pwm c (hall (c, ops) (by simp)) ops s s1 h h1) he
 
 /-- the controller built from rules satisfies `CtlRanged` -/
 theorem pwmControl_ranged (c : Cfg) (e : CtlEnv) (rules : List Rule) (h : c.control = some (pwmControl e rules)) :
